@@ -46,6 +46,13 @@ Proof.
   - apply Nat.eqb_neq in E. destruct (i <? n); [|reflexivity]. apply set_nth_other. lia.
 Qed.
 
+Lemma store_some {A} (i : nat) (v : A) (l l' : list A) :
+  store i v l = Some l' -> i < length l /\ l' = set_nth i v l.
+Proof.
+  unfold store. destruct (i <? length l) eqn:E; [|discriminate]. intros H. injection H as <-.
+  apply Nat.ltb_lt in E. split; [exact E | reflexivity].
+Qed.
+
 Lemma in_list_max : forall l, l <> [] -> In (list_max l) l.
 Proof.
   induction l as [|a l IH]; intros Hne; [congruence|].
@@ -109,7 +116,12 @@ Qed.
 
 Lemma add_child_wf (t t' : tree T) father s : wf t -> add_child t father s = Some t' -> wf t'.
 Proof.
-  intros W H. unfold add_child in H. apply bind_some in H. destruct H as (d & Hd & H).
+  intros W H. unfold add_child in H.
+  apply bind_some in H. destruct H as (cl & Hcl & H). apply store_some in Hcl. destruct Hcl as [_ ->].
+  apply bind_some in H. destruct H as (cr & Hcr & H). apply store_some in Hcr. destruct Hcr as [_ ->].
+  apply bind_some in H. destruct H as (th0 & Hth0 & H). apply store_some in Hth0. destruct Hth0 as [_ ->].
+  apply bind_some in H. destruct H as (ft0 & Hft0 & H). apply store_some in Hft0. destruct Hft0 as [_ ->].
+  apply bind_some in H. destruct H as (d & Hd & H).
   injection H as <-. destruct W as [Lcl Lcr Lft Lth Ltg Ldp Hpos Hroot Hnodes].
   set (n := n_nodes t) in *.
   assert (Hf : father < n). { rewrite <- Ldp. apply nth_error_Some. rewrite Hd. discriminate. }
@@ -197,12 +209,12 @@ Lemma guard_spec (t : tree T) (ns : list N) :
 Proof.
   unfold names_guard_rejects. split.
   - intros H. apply andb_true_iff in H. destruct H as [H1 H2].
-    apply negb_true_iff, Nat.eqb_neq in H1. apply Nat.leb_le in H2.
+    apply Nat.ltb_lt in H1. apply Nat.leb_le in H2.
     exists (list_max (used_features t)). split.
-    + apply in_list_max. intros E. rewrite E in H1. apply H1. reflexivity.
+    + apply in_list_max. intros E. rewrite E in H1. cbn [length] in H1. lia.
     + apply nth_error_None. exact H2.
   - intros (f & Hf & Hn). apply nth_error_None in Hn. apply andb_true_iff. split.
-    + apply negb_true_iff, Nat.eqb_neq. destruct (used_features t); [destruct Hf | discriminate].
+    + apply Nat.ltb_lt. destruct (used_features t); [destruct Hf | cbn [length]; lia].
     + apply Nat.leb_le. pose proof (le_list_max _ _ Hf). lia.
 Qed.
 
@@ -250,6 +262,11 @@ Qed.
 Lemma eqb_child_false l : Z.eqb (Z.of_nat l) (-1) = false.
 Proof. apply Z.eqb_neq. lia. Qed.
 
+Lemma range_guard_false n i : i < n -> (i <? 0) || (n <? i) = false.
+Proof.
+  intros H. apply orb_false_iff. split; [apply Nat.ltb_ge; lia | apply Nat.ltb_ge; lia].
+Qed.
+
 Lemma node_master (leb : T -> T -> bool) (t : tree T) names : wf t -> names_cover t names ->
   forall fuel i, i < n_nodes t -> n_nodes t - i <= fuel ->
   exists toks r d,
@@ -271,7 +288,7 @@ Proof.
     + intros fuel2 rest Hlen. cbn [length] in Hlen. destruct fuel2 as [|fuel2]; [lia|].
       cbn [app parse_node]. rewrite Nat.eqb_refl. reflexivity.
     + intros x val _. exists c. split; [|reflexivity].
-      cbn [predict_node]. rewrite Hl, Hc. reflexivity.
+      cbn [predict_node]. rewrite (range_guard_false _ _ Hi), Hl, Hc. reflexivity.
   - (* split *)
     destruct (Hcov f (used_in t i f Hft)) as (lab & Hlab).
     destruct (IH l ltac:(lia) ltac:(lia)) as (Lo & Lr & dl & HLo & HLr & HdL & HpL & HeL).
@@ -294,7 +311,7 @@ Proof.
       rewrite (HpR fuel2 rest) by lia. reflexivity.
     + intros x val Hval. pose proof (Hval f lab (used_in t i f Hft) Hlab) as Hv.
       destruct (HeL x val Hval) as (cl & HpredL & HevL). destruct (HeR x val Hval) as (cr & HpredR & HevR).
-      cbn [predict_node eval_rules]. rewrite Hl, Hr, Hft, Hth. cbn [bind]. rewrite eqb_child_false, Hv, !Nat2Z.id.
+      cbn [predict_node eval_rules]. rewrite (range_guard_false _ _ Hi), Hl, Hr, Hft, Hth. cbn [bind]. rewrite eqb_child_false, Hv, !Nat2Z.id.
       destruct (leb (x f) th); cbn [negb].
       * exists cl. split; assumption.
       * exists cr. split; assumption.
